@@ -76,6 +76,13 @@ pub fn legs(prop: &str, tier: Tier) -> Vec<Leg> {
                 vec![leg("box", "box", if q { 60_000 } else { 3_000_000 }, &["truncate", "garbage", "extend", "splice"]), leg("stream", "stream", if q { 40_000 } else { 2_000_000 }, &["truncate", "garbage", "tx.any_tag_byte"]), leg("verifier", "verifier", if q { 30_000 } else { 1_500_000 }, &["truncate", "garbage", "flip", "seg.drop", "seg.dup", "seg.swap", "seg.empty", "char.replace", "num.replace", "verdict.accept", "verdict.reject"])]
             }
         }
+        "C11" => {
+            if n {
+                vec![leg("rng-n", "rng", if q { 600 } else { 30_000 }, &["call.seam", "call.real", "history.byte_varies_evaluated"])]
+            } else {
+                vec![leg("rng", "rng", if q { 3_000 } else { 150_000 }, &["call.seam", "call.real", "history.byte_varies_evaluated"])]
+            }
+        }
         _ => vec![],
     }
 }
